@@ -30,16 +30,17 @@ PostOk(p) ==
   /\ \A c \in 1..(NCalls - nauto) : ResStr(result[c]) = p.res[c]
 
 \* 1 ms passes (plus the tick d of the run) with nobody sleeping: only the clock moves
-PassIdle(d) ==
-  /\ Quiescent /\ clock' = clock + 1 + d
-  /\ UNCHANGED <<pend, up, conn, autoQ, autoCall, nauto, pc, vb, pf, wf, g, sem, semQ, lastTs, cmds, replies, fin, result,
+PassIdle(d, adv) ==
+  /\ Quiescent /\ clock' = clock + adv + d
+  /\ UNCHANGED <<pend, up, conn, autoQ, autoCall, nauto, pc, vb, pf, wf, g, tries, late, sem, semQ, lastTs, cmds, replies, fin, result,
                  filt, running, dev, nodev>>
   /\ Track
 
 Stim(e) ==
   CASE e.a = "Call" -> Call(e.c, e.v, e.p, e.w, e.d)
     [] e.a = "Tick" -> Tick
-    [] e.a = "Pass" -> IF \E c \in Calls : pc[c] = "sleeping" THEN \E c \in Calls : Wake(c, e.d) ELSE PassIdle(e.d)
+    [] e.a = "Pass" -> IF \E c \in Calls : pc[c] = "sleeping" THEN \E c \in Calls : Wake(c, e.d, e.adv) ELSE PassIdle(e.d, e.adv)
+    [] e.a = "Declare" -> DeclareRoute(e.r, e.d)
     [] e.a = "FwdReply" -> e.i \in 1..Len(cmds) /\ FwdReply(cmds[e.i].call, e.k, e.b, e.d)
     [] e.a = "Connect" -> Connect(e.d)
     [] e.a = "Disconnect" -> Disconnect
